@@ -4,7 +4,8 @@ replacements for threading.Lock (as imported by the two modules) and for a block
 object level through harness-side subclasses (logging list for _event_queues, property-like hooks for _active_queue, logging
 PriorityQueue) - see DESIGN.md section 3 for why this adapter, unlike the others, looks at internals."""
 import sys, threading, random, queue, collections, os
-if "/repo" not in sys.path: sys.path.insert(0, "/repo")
+REPO = os.environ.get("VERIF_REPO", "/repo")
+if REPO not in sys.path: sys.path.insert(0, REPO)
 import simpleline.event_loop.main_loop as ml
 import simpleline.event_loop.event_queue as eq
 from simpleline.event_loop import AbstractSignal
@@ -68,7 +69,7 @@ class CoopLock:
 
 
 def tracer(frame, event, arg):
-    if "/repo/simpleline/event_loop" not in frame.f_code.co_filename: return None
+    if REPO + "/simpleline/event_loop" not in frame.f_code.co_filename: return None
     if frame.f_code.co_name in ("__lt__", "__eq__", "priority"): return None      # run under the queue's mutex: no switch there
     def local(frame, event, arg):
         if event == "line": SCHED.switch(me())
